@@ -20,6 +20,7 @@ import numpy as np
 from vt import alg, extract, sx, symrun
 from vt.alg import Ctx, X
 from vt.core import Ob, Verdict, Refuted, Unsupported, DISCHARGED, REFUTED
+from . import ops
 from . import common, patches, fem
 
 PROP = "C13"
@@ -734,12 +735,14 @@ def build(tier, seed):
     functions = {q: extract.get(FP, q).describe() for q in ("BiLinearForm.Integrate_e", "BiLinearForm.Assemble", "LinearForm.Integrate_e", "LinearForm.Assemble")}
     functions["Field.__call__"] = extract.get(FD, "Field.__call__").describe()
     functions["Field.grad"] = extract.get(FD, "Field.grad", "getter").describe()
+    obs += ops.form_obligations('C13', tier)
+    obs.append(ops.selfcheck_ob('C13'))
     return dict(
         obs=obs, level="other", min_obligations=30,
         explanation=("Assemble index pairing is decided from the extracted source against C03's index contracts. Element integration is the real form machinery: in exact "
                      "arithmetic for three basic forms, and as run-time contracts for a grammar of ten bilinear and two linear forms per element type against the real built-in "
                      "operators with the same quadrature; weak-form simulations against the dedicated thermal / elastic simulations (static, parabolic, hyperbolic)."),
-        trusted_base=["C03 index contracts", "built-in operators as oracle (their own contracts are C01/C02)", "vt/symrun.py"],
+        trusted_base=ops.GP_TRUST + ["C03 index contracts", "built-in operators as oracle (their own contracts are C01/C02)", "vt/symrun.py"],
         assumptions=["grammar bounded to the listed forms; 2-element patches; floats with 1e-12"],
         functions=functions,
         dropped=["imported code unmodified for B/X tiers"],
